@@ -940,6 +940,14 @@ func constByteGlobal(g *ssa.Global) ([]byte, bool) {
 								return nil
 							}
 							stores++
+							if cv, isConv := st.Val.(*ssa.Convert); isConv {
+								// g = []byte("literal")
+								if k, isConst := cv.X.(*ssa.Const); isConst && k.Value != nil && k.Value.Kind() == constant.String {
+									lit = []byte(constant.StringVal(k.Value))
+									continue
+								}
+								return nil
+							}
 							s, ok := st.Val.(*ssa.Slice)
 							if !ok || s.Low != nil || s.High != nil {
 								return nil
